@@ -294,9 +294,27 @@ fn boundary<F: Scalar>(_p: &Params) {
     let n = pts_i.len();
     let pts = Array2::from_shape_fn((n, 2), |(i, j)| pts_i[i][j] as f64);
     let q = Array1::from(vec![qi[0] as f64, qi[1] as f64]);
+    // single=1: the same in single precision (radius = the f32 square root and its neighbours)
+    let single = _p.u("single", 0) == 1;
+    let r32 = {
+        let base = (k2 as f32).sqrt();
+        let bits = base.to_bits();
+        match ((r > (k2 as f64).sqrt()) as i32) - ((r < (k2 as f64).sqrt()) as i32) {
+            -1 => f32::from_bits(bits - 1),
+            0 => base,
+            _ => f32::from_bits(bits + 1),
+        }
+    };
+    let r = if single { r32 as f64 } else { r };
+    let pts32 = pts.mapv(|v| v as f32);
+    let q32 = q.mapv(|v| v as f32);
     let mut sets: Vec<Vec<bool>> = vec![];
     for kind in 0..3 {
-        let res = query_range::<f64>(kind, 2, leaf, &pts, &q, r);
+        let res: Vec<(Vec<f64>, usize)> = if single {
+            query_range::<f32>(kind, 2, leaf, &pts32, &q32, r32).into_iter().map(|(p, i)| (p.into_iter().map(|v| v as f64).collect(), i)).collect()
+        } else {
+            query_range::<f64>(kind, 2, leaf, &pts, &q, r)
+        };
         let mut inset = vec![false; n];
         for (_, i) in &res {
             if *i < n {
@@ -305,11 +323,19 @@ fn boundary<F: Scalar>(_p: &Params) {
         }
         for i in 0..n {
             let d2 = ((pts_i[i][0] - qi[0]).pow(2) + (pts_i[i][1] - qi[1]).pow(2)) as u64;
-            match cmp_d2_r2(d2, r) {
-                std::cmp::Ordering::Less => check_bool("boundary.every point strictly inside the radius (exact arithmetic) is returned", inset[i]),
-                std::cmp::Ordering::Greater => check_bool("boundary.no point strictly outside the radius (exact arithmetic) is returned", !inset[i]),
+            // A point whose squared distance is within a few ulps (of the precision in use) of the squared radius is
+            // treated as lying on the radius: the indices compare rounded squares, so its membership is not
+            // determined -- but the three kinds must still agree on it.
+            let eps = if single { f32::EPSILON as f64 } else { f64::EPSILON };
+            let on_border = ((d2 as f64) - r * r).abs() <= 4.0 * eps * d2 as f64;
+            match if on_border { std::cmp::Ordering::Equal } else { cmp_d2_r2(d2, r) } {
+                std::cmp::Ordering::Less => check_bool(&format!("boundary.every point strictly inside the radius (exact arithmetic) is returned [{}]", ["ball tree", "k-d tree", "linear scan"][kind]), inset[i]),
+                std::cmp::Ordering::Greater => check_bool(&format!("boundary.no point strictly outside the radius (exact arithmetic) is returned [{}]", ["ball tree", "k-d tree", "linear scan"][kind]), !inset[i]),
                 _ => {}
             }
+        }
+        if std::env::var("HS_DEBUG").is_ok() {
+            eprintln!("kind {} single {} r {:e} q {:?} leaf {} -> {:?}", kind, single, r, qi, leaf, inset);
         }
         sets.push(inset);
     }
